@@ -37,6 +37,16 @@ NamePrograms == {<<o>> : o \in NameOps} \cup {<<Op("map", c, "", "", 0), o>> : c
 \* (N) pairs of programs over the shared source A
 NameCases == LET ps == SetToSeq(NamePrograms)
              IN {[kind |-> "names", start |-> "A", p |-> ps[i], q |-> ps[j]] : <<i, j>> \in {x \in (DOMAIN ps) \X (DOMAIN ps) : x[1] <= x[2]}}
+\* (P) the same order-sensitive operation / multi-input payload over the same inputs in another order: a.subtract(b) and
+\*     b.subtract(a); reduce(f) over the join of three actions taken in two different orders ("from" restarts from an action)
+From(a) == Op("from", "", a, "", 0)
+SwapKinds == {"add", "subtract", "multiply", "divide", "power"}
+OperandPairs == {<<"A2", "B2">>, <<"A", "B">>, <<"A2", "A">>, <<"B2", "A">>}
+Perm3 == {<<"A2", "B2", "A">>, <<"A2", "A", "B2">>, <<"B2", "A2", "A">>, <<"B2", "A", "A2">>, <<"A", "A2", "B2">>, <<"A", "B2", "A2">>}
+JoinReduce(t, f) == <<From(t[1]), Op("joinz", "", t[2], "", 0), Op("joinz", "", t[3], "", 0), Op("reduce", f, "", "z", 0)>>
+PermCases == {[kind |-> "names", start |-> "A", p |-> <<From(pr[1]), Op(k, "", pr[2], "", 0)>>, q |-> <<From(pr[2]), Op(k, "", pr[1], "", 0)>>] :
+                 k \in SwapKinds, pr \in OperandPairs}
+        \cup {[kind |-> "names", start |-> "A", p |-> JoinReduce(t1, f), q |-> JoinReduce(t2, f)] : t1, t2 \in Perm3, f \in {"def1", "lam1"}}
 \* (S) two sources, created by one from_source call or by two
 SrcCallables == {"slam1", "slam2", "sdef1", "sdef2", "spar1", "spar2"}
 SourceCases == {[kind |-> "sources", start |-> "", p |-> <<Op("source", c1, "", IF one THEN "one_call" ELSE "two_calls", 0)>>,
@@ -54,7 +64,7 @@ OperandCases == {[kind |-> "operands", start |-> s, p |-> <<o>>, q |-> <<>>] : s
            \cup {[kind |-> "operands", start |-> s, p |-> <<o, o2>>, q |-> <<>>] : s \in {"A", "A2", "D"}, o \in BinOps \cup UnOps, o2 \in Seconds}
 
 \* ======================================================================== post-condition
-Comp(n) == <<n.fid, n.args, n.kwargs, n.inputs>>          \* same callable, same static arguments, same inputs
+Comp(n) == <<n.fid, n.args, n.kwargs, n.inputs>>          \* same callable, same static arguments, same inputs IN THE SAME ORDER (a sequence)
 CollisionKind(a, b) == IF a.fid # b.fid THEN (IF a.fname = "<lambda>" THEN "different_lambdas" ELSE "different_callables_with_equal_name")
                        ELSE IF a.inputs # b.inputs THEN "different_inputs" ELSE "different_static_arguments"
 Post(c, r) ==
@@ -67,7 +77,7 @@ Post(c, r) ==
  \cup (IF c.kind # "operands" /\ Len(r.steps) # 2 * (Len(c.p) + Len(c.q)) THEN {"program_not_executed"} ELSE {})
 
 \* ======================================================================== the two TLC passes
-Generate == JsonSerialize(IOEnv.CASES_FILE, SetToSeq(NameCases) \o SetToSeq(SourceCases) \o SetToSeq(OperandCases))
+Generate == JsonSerialize(IOEnv.CASES_FILE, SetToSeq(NameCases) \o SetToSeq(PermCases) \o SetToSeq(SourceCases) \o SetToSeq(OperandCases))
 Judge ==
   LET cs == JsonDeserialize(IOEnv.CASES_FILE)
       rs == JsonDeserialize(IOEnv.RESULTS_FILE)
